@@ -90,6 +90,18 @@ class Deadlock(RuntimeError):
     pass
 
 
+class SimAbort(KeyboardInterrupt):
+    """Raised from inside loop callbacks; asyncio lets KeyboardInterrupt through where it would swallow an Exception."""
+
+
+class ScenarioTimeout(SimAbort):
+    pass
+
+
+class Runaway(SimAbort):
+    """The simulated system does not come to rest (zero-time loop, unbounded traffic)."""
+
+
 class _Selector:
     def __init__(self, loop: 'VLoop') -> None:
         self.loop = loop
@@ -283,11 +295,15 @@ class Net:
         self.on_recv_hook: Optional[Callable[[dict, bytes], None]] = None
         self.on_recv_done_hook: Optional[Callable[[dict], None]] = None
         self._creating: Optional[Host] = None
+        self.max_events = 120000
+        self.aborted: Optional[str] = None
         self.loop.set_exception_handler(self._exc_handler)
 
     # ---------------------------------------------------------------- log
     def emit(self, host: Optional[str], ev: str, **kw: Any) -> dict:
         self._seq += 1
+        if self._seq > self.max_events:
+            raise Runaway('simnet: event budget of %d exceeded at t=%s ms' % (self.max_events, self.now()))
         e = {'seq': self._seq, 't': self.now(), 'host': host, 'ev': ev}
         e.update(kw)
         self.log.append(e)
@@ -427,6 +443,8 @@ class Net:
             self.on_recv_hook(e, data)
         try:
             rsock.protocol.datagram_received(data, src)
+        except (Runaway, ScenarioTimeout):
+            raise
         except Exception as ex:  # noqa: BLE001 - this is exactly what a selector transport hands to the loop
             self.emit(rsock.host.name, 'exc', where='datagram_received', cls=type(ex).__name__, msg=str(ex)[:200],
                       n=n)
@@ -463,7 +481,11 @@ class Net:
         _zc_core.create_sockets = self._create_sockets
         try:
             asyncio.set_event_loop(self.loop)
-            return self.loop.run_until_complete(coro)
+            try:
+                return self.loop.run_until_complete(coro)
+            except (Runaway, Deadlock, ScenarioTimeout) as ex:
+                self.aborted = '%s: %s' % (type(ex).__name__, ex)
+                return None
         finally:
             _zc_core.create_sockets = saved
             try:
